@@ -1226,6 +1226,542 @@ fn check(case: &Case, info: &mut CaseInfo) -> CheckResult {
     Ok(())
 }
 
+// ---- sequences of entry-point calls on one run state ---------------------------------------------------------------------
+
+#[derive(Clone, Debug, Serialize, Deserialize)]
+enum Body {
+    /// exits at once: whatever the entry point pushed stays on the stack
+    ExitNow,
+    /// `Def`s the last `n` parameters, runs the (forward-only) code, then Return or Exit
+    Code { n: u8, code: Vec<Instruction>, ret: bool },
+}
+
+#[derive(Clone, Debug, Serialize, Deserialize)]
+struct DefSpec {
+    /// number of parameters (action) / fields (command)
+    n: u8,
+    /// type selectors, cycled over the parameters
+    tys: Vec<u8>,
+    /// action: body 0; command: policy, recall, seal, open take body k (cycled)
+    bodies: Vec<Body>,
+}
+
+#[derive(Clone, Debug, Serialize, Deserialize)]
+enum SeqProg {
+    Built { actions: Vec<DefSpec>, commands: Vec<DefSpec> },
+    /// an unmodified compiled policy of the corpus (every call is stepped with the bounds)
+    Base(u16),
+}
+
+#[derive(Clone, Debug, Serialize, Deserialize)]
+enum ArgMode {
+    /// one value of the declared type per parameter / field
+    Valid,
+    /// this many arguments / fields, typed like the declaration (cycled); valid when the count matches
+    Count(u8),
+    /// valid, but one argument is of another type
+    WrongType(u16),
+    Arbitrary(Vec<Value>),
+}
+
+#[derive(Clone, Copy, Debug, Serialize, Deserialize)]
+enum Via {
+    /// RunState::call_action / call_command_policy
+    Call,
+    /// setup_action / setup_command (+ envelope), then RunState::run
+    SetupRun,
+    /// setup_*, then step by step
+    SetupStep,
+    /// Machine::call_action / call_command_policy: a fresh run state
+    Fresh,
+}
+
+#[derive(Clone, Debug, Serialize, Deserialize)]
+enum SeqOp {
+    Action { which: u16, args: ArgMode, ctx_ok: bool, via: Via },
+    Command { which: u16, args: ArgMode, ctx_ok: bool, via: Via },
+    Seal { which: u16, args: ArgMode, ctx_ok: bool, payload: u8 },
+    Open { which: u16, args: ArgMode, ctx_ok: bool, payload: u8 },
+    Reset,
+    Push(u8),
+    Pop(u8),
+}
+
+#[derive(Clone, Debug, Serialize, Deserialize)]
+struct SeqCase {
+    prog: SeqProg,
+    /// initial stack: these values, then `pad` integers
+    prefill: Vec<Value>,
+    pad: u8,
+    ops: Vec<SeqOp>,
+    /// context used when an op asks for a non-matching one
+    alt: CtxSpec,
+    io: IoScript,
+    data: Vec<u8>,
+}
+
+fn count_u8_s() -> impl Strategy<Value = u8> {
+    prop_oneof![5 => 0u8..6, 2 => 0u8..=130, 2 => 94u8..=106]
+}
+
+fn body_s() -> impl Strategy<Value = Body> {
+    prop_oneof![
+        2 => Just(Body::ExitNow),
+        3 => (prop_oneof![3 => 0u8..4, 1 => 0u8..=130, 1 => Just(255u8)], prop::collection::vec(snippet_s(), 0..3), any::<bool>()).prop_map(|(n, sn, ret)| {
+            let mut code: Vec<Instruction> = sn.into_iter().flatten().collect();
+            code.truncate(8);
+            Body::Code { n, code, ret }
+        }),
+    ]
+}
+
+fn defspec_s() -> impl Strategy<Value = DefSpec> {
+    (count_u8_s(), prop::collection::vec(0u8..9, 1..4), prop::collection::vec(body_s(), 1..4)).prop_map(|(n, tys, bodies)| DefSpec { n, tys, bodies })
+}
+
+fn argmode_s() -> impl Strategy<Value = ArgMode> {
+    prop_oneof![
+        7 => Just(ArgMode::Valid),
+        3 => count_u8_s().prop_map(ArgMode::Count),
+        1 => any::<u16>().prop_map(ArgMode::WrongType),
+        1 => prop::collection::vec(value_s(), 0..4).prop_map(ArgMode::Arbitrary),
+    ]
+}
+
+fn seqop_s() -> impl Strategy<Value = SeqOp> {
+    let via = || prop::sample::select(vec![Via::Call, Via::Call, Via::Call, Via::SetupRun, Via::SetupStep, Via::Fresh]);
+    let ok = || prop::bool::weighted(0.85);
+    prop_oneof![
+        6 => (any::<u16>(), argmode_s(), ok(), via()).prop_map(|(which, args, ctx_ok, via)| SeqOp::Action { which, args, ctx_ok, via }),
+        4 => (any::<u16>(), argmode_s(), ok(), via()).prop_map(|(which, args, ctx_ok, via)| SeqOp::Command { which, args, ctx_ok, via }),
+        2 => (any::<u16>(), argmode_s(), ok(), 0u8..20).prop_map(|(which, args, ctx_ok, payload)| SeqOp::Seal { which, args, ctx_ok, payload }),
+        2 => (any::<u16>(), argmode_s(), ok(), 0u8..20).prop_map(|(which, args, ctx_ok, payload)| SeqOp::Open { which, args, ctx_ok, payload }),
+        1 => Just(SeqOp::Reset),
+        2 => prop_oneof![0u8..6, 0u8..=100].prop_map(SeqOp::Push),
+        1 => (0u8..12).prop_map(SeqOp::Pop),
+    ]
+}
+
+fn seq_case() -> impl Strategy<Value = SeqCase> {
+    (
+        prop_oneof![
+            5 => (prop::collection::vec(defspec_s(), 1..3), prop::collection::vec(defspec_s(), 1..3)).prop_map(|(actions, commands)| SeqProg::Built { actions, commands }),
+            1 => any::<u16>().prop_map(SeqProg::Base),
+        ],
+        prop::collection::vec(value_s(), 0..3),
+        prop_oneof![3 => Just(0u8), 2 => 0u8..=100, 2 => 88u8..=100],
+        prop::collection::vec(seqop_s(), 1..8),
+        ctx_s(),
+        io_s(),
+        prop::collection::vec(any::<u8>(), 0..40),
+    )
+        .prop_map(|(prog, prefill, pad, ops, alt, io, data)| SeqCase { prog, prefill, pad, ops, alt, io, data })
+}
+
+fn sel_type(sel: u8) -> TypeKind {
+    match sel % 9 {
+        0 => TypeKind::Int,
+        1 => TypeKind::Bool,
+        2 => TypeKind::String,
+        3 => TypeKind::Bytes,
+        4 => TypeKind::Id,
+        5 => TypeKind::Optional(Box::new(TypeKind::Int)),
+        6 => TypeKind::Struct(id("S")),
+        7 => TypeKind::Enum(id("E")),
+        _ => TypeKind::Result(Box::new(ResultTypeKind { ok: TypeKind::Int, err: TypeKind::String })),
+    }
+}
+
+fn spec_fields(d: &DefSpec, prefix: &str) -> Vec<Field> {
+    (0..d.n as usize)
+        .map(|j| Field {
+            name: match j {
+                0 => id("a"),
+                1 => id("b"),
+                2 => id("x"),
+                _ => id(&format!("{prefix}{j}")),
+            },
+            ty: sel_type(d.tys[j % d.tys.len()]),
+        })
+        .collect()
+}
+
+/// Appends a body; jumps and branches are made forward-only and calls are left out, so that every run terminates
+/// without the step bound (the `call_*` entry points run to the end on their own).
+fn emit_body(prog: &mut Vec<Instruction>, b: &Body, params: &[Field], command: bool) {
+    use Instruction as I;
+    match b {
+        Body::ExitNow => prog.push(I::Exit(ExitReason::Normal)),
+        Body::Code { n, code, ret } => {
+            if command {
+                if *n > 0 {
+                    prog.push(I::Def(id("this")));
+                }
+            } else {
+                let k = (*n as usize).min(params.len());
+                for f in params[params.len() - k..].iter().rev() {
+                    prog.push(I::Def(f.name.clone()));
+                }
+            }
+            for i in code {
+                let a = prog.len();
+                let fwd = |t: &usize| Target::Resolved(a + 1 + t % 6);
+                match i {
+                    I::Jump(Target::Resolved(t)) => prog.push(I::Jump(fwd(t))),
+                    I::Branch(Target::Resolved(t)) => prog.push(I::Branch(fwd(t))),
+                    I::Call(Target::Resolved(_)) | I::Recall(Target::Resolved(_)) => {}
+                    other => prog.push(other.clone()),
+                }
+            }
+            prog.push(if *ret { I::Return } else { I::Exit(ExitReason::Normal) });
+        }
+    }
+}
+
+fn build_seq(actions: &[DefSpec], commands: &[DefSpec]) -> Machine {
+    let mut prog = Vec::new();
+    let mut labels = Vec::new();
+    let mut adefs = Vec::new();
+    let mut cdefs = Vec::new();
+    for (i, d) in actions.iter().enumerate() {
+        let name = id(&format!("act{i}"));
+        let params = spec_fields(d, "p");
+        labels.push((Label::new(name.clone(), LabelType::Action), prog.len()));
+        emit_body(&mut prog, &d.bodies[0], &params, false);
+        adefs.push(ActionDef { name, persistence: Persistence::Persistent, params, result_type: TypeKind::Unit });
+    }
+    for (i, d) in commands.iter().enumerate() {
+        let name = id(&format!("Cmd{i}"));
+        let fields = spec_fields(d, "f");
+        for (k, lt) in [LabelType::CommandPolicy, LabelType::CommandRecall, LabelType::CommandSeal, LabelType::CommandOpen].into_iter().enumerate() {
+            labels.push((Label::new(name.clone(), lt), prog.len()));
+            emit_body(&mut prog, &d.bodies[k % d.bodies.len()], &fields, true);
+        }
+        cdefs.push(CommandDef {
+            name,
+            persistence: if i % 2 == 0 { Persistence::Persistent } else { Persistence::Ephemeral },
+            attributes: vec![],
+            fields,
+        });
+    }
+    let mut m = Machine::new(prog);
+    for (l, a) in labels {
+        m.labels.insert(l, a);
+    }
+    for d in adefs {
+        m.action_defs.insert(d);
+    }
+    for d in cdefs {
+        m.command_defs.insert(d);
+    }
+    m.struct_defs.insert(StructDef { name: id("S"), items: vec![Field { name: id("a"), ty: TypeKind::Int }, Field { name: id("b"), ty: TypeKind::Bool }] });
+    m.enum_defs.insert(EnumDef { name: id("E"), variants: vec![(id("A"), 0), (id("B"), 1)] });
+    m.fact_defs.insert(FactDef {
+        name: id("F"),
+        key: vec![Field { name: id("k"), ty: TypeKind::Int }],
+        value: vec![Field { name: id("v"), ty: TypeKind::Int }],
+        immutable: false,
+    });
+    m
+}
+
+/// Values for a parameter / field list under an argument mode: (name, value) pairs in declaration order.
+fn build_args(m: &Machine, params: &[Field], mode: &ArgMode, cur: &mut Cur<'_>) -> Vec<(Identifier, Value)> {
+    let valid = |cur: &mut Cur<'_>| -> Vec<(Identifier, Value)> { params.iter().map(|p| (p.name.clone(), value_of(m, &p.ty, cur, 0))).collect() };
+    match mode {
+        ArgMode::Valid => valid(cur),
+        ArgMode::Count(n) => (0..*n as usize)
+            .map(|j| {
+                if j < params.len() {
+                    (params[j].name.clone(), value_of(m, &params[j].ty, cur, 0))
+                } else if params.is_empty() {
+                    (id(&format!("e{j}")), Value::Int(j as i64))
+                } else {
+                    (id(&format!("e{j}")), value_of(m, &params[j % params.len()].ty, cur, 0))
+                }
+            })
+            .collect(),
+        ArgMode::WrongType(k) => {
+            let mut v = valid(cur);
+            if !v.is_empty() {
+                let i = idx(*k, v.len());
+                v[i].1 = Value::Identifier(id("x"));
+            }
+            v
+        }
+        ArgMode::Arbitrary(vs) => vs.iter().enumerate().map(|(j, v)| (id(NAMES[j % NAMES.len()]), v.clone())).collect(),
+    }
+}
+
+#[derive(Default)]
+struct SeqStats {
+    calls: usize,
+    /// calls that got past argument / context validation
+    entered: usize,
+    /// calls refused or ended with StackOverflow while the arguments did not fit the free stack
+    entry_overflow: usize,
+    max_args: usize,
+    max_before: usize,
+    size_bound: bool,
+    step_bound: bool,
+}
+
+fn is_validation_error(e: &MachineError) -> bool {
+    matches!(
+        e.err_type,
+        MachineErrorType::NotDefined(_)
+            | MachineErrorType::ContextMismatch
+            | MachineErrorType::Unknown(_)
+            | MachineErrorType::InvalidType { .. }
+            | MachineErrorType::InvalidAddress(_)
+            | MachineErrorType::InvalidStructMember(_)
+    )
+}
+
+/// Bounded stepping of whatever the run state is set up for.
+fn step_bounded<M: MachineIO<MachineStack>>(rs: &mut aranya_policy_vm::RunState<'_, M>, st: &mut SeqStats) -> Result<ExitReason, MachineError> {
+    for _ in 0..STEP_BOUND {
+        match rs.step()? {
+            MachineStatus::Executing => {}
+            MachineStatus::Exited(r) => return Ok(r),
+        }
+        let mut budget = SIZE_BOUND;
+        for v in rs.stack.as_slice() {
+            vsize(v, &mut budget);
+        }
+        if budget == 0 {
+            st.size_bound = true;
+            return Ok(ExitReason::Yield);
+        }
+    }
+    st.step_bound = true;
+    Ok(ExitReason::Yield)
+}
+
+fn run_seq(m: &Machine, case: &SeqCase, built: bool, at: &Cell<usize>) -> SeqStats {
+    let mut st = SeqStats::default();
+    let mut cur = Cur { d: &case.data, i: 0 };
+    let mut actions: Vec<&ActionDef> = m.action_defs.iter().collect();
+    actions.sort_by(|a, b| a.name.as_str().cmp(b.name.as_str()));
+    let mut commands: Vec<&CommandDef> = m.command_defs.iter().collect();
+    commands.sort_by(|a, b| a.name.as_str().cmp(b.name.as_str()));
+    let alt = &case.alt;
+    let ctx_for = |ok: bool, natural: u8, name: &Identifier| -> CommandContext {
+        if ok {
+            make_ctx(natural, name, alt.seed)
+        } else {
+            make_ctx(alt.kind % 5, if alt.seed & 1 == 0 { name } else { &alt.name }, alt.seed)
+        }
+    };
+    let mut io = ScriptIo::new(&case.io);
+    let mut rs = m.create_run_state(&mut io, make_ctx(alt.kind % 5, &alt.name, alt.seed));
+    for v in &case.prefill {
+        let _ = rs.stack.push_value(v.clone());
+    }
+    for i in 0..case.pad {
+        let _ = rs.stack.push_value(Value::Int(i64::from(i)));
+    }
+    for (k, op) in case.ops.iter().enumerate() {
+        at.set(k);
+        let before = rs.stack.len();
+        // (result of the call, number of values the entry point pushes)
+        let res: Option<(Result<ExitReason, MachineError>, usize)> = match op {
+            SeqOp::Reset => {
+                rs.reset();
+                None
+            }
+            SeqOp::Push(n) => {
+                for i in 0..*n {
+                    let _ = rs.stack.push_value(Value::Int(i64::from(i)));
+                }
+                None
+            }
+            SeqOp::Pop(n) => {
+                for _ in 0..*n {
+                    let _ = rs.stack.pop_value();
+                }
+                None
+            }
+            SeqOp::Action { which, args, ctx_ok, via } => {
+                if actions.is_empty() {
+                    continue;
+                }
+                let d = actions[idx(*which, actions.len())];
+                let vals: Vec<Value> = build_args(m, &d.params, args, &mut cur).into_iter().map(|x| x.1).collect();
+                let n = vals.len();
+                let ctx = ctx_for(*ctx_ok, 0, &d.name);
+                let via = if built { *via } else { Via::SetupStep };
+                let r = match via {
+                    Via::Call => {
+                        rs.set_context(ctx);
+                        rs.call_action(d.name.clone(), vals)
+                    }
+                    Via::SetupRun => {
+                        rs.set_context(ctx);
+                        rs.setup_action(d.name.clone(), vals).and_then(|()| rs.run())
+                    }
+                    Via::SetupStep => {
+                        rs.set_context(ctx);
+                        match rs.setup_action(d.name.clone(), vals) {
+                            Ok(()) => step_bounded(&mut rs, &mut st),
+                            Err(e) => Err(e),
+                        }
+                    }
+                    Via::Fresh => {
+                        let mut io2 = ScriptIo::new(&case.io);
+                        m.clone().call_action(d.name.clone(), vals, &mut io2, ctx)
+                    }
+                };
+                Some((r, if matches!(via, Via::Fresh) { 0 } else { n }))
+            }
+            SeqOp::Command { which, args, ctx_ok, via } => {
+                if commands.is_empty() {
+                    continue;
+                }
+                let d = commands[idx(*which, commands.len())];
+                let this = Struct { name: d.name.clone(), fields: build_args(m, &d.fields, args, &mut cur).into_iter().collect() };
+                let env = envelope(&mut cur);
+                let ctx = ctx_for(*ctx_ok, 3, &d.name);
+                let via = if built { *via } else { Via::SetupStep };
+                let label = Label::new(d.name.clone(), LabelType::CommandPolicy);
+                let r = match via {
+                    Via::Call => {
+                        rs.set_context(ctx);
+                        rs.call_command_policy(this, env)
+                    }
+                    Via::SetupRun | Via::SetupStep => {
+                        rs.set_context(ctx);
+                        match rs.setup_command(label, this).and_then(|()| rs.stack.push_value(Value::Struct(env)).map_err(MachineError::new)) {
+                            Ok(()) => {
+                                if matches!(via, Via::SetupRun) {
+                                    rs.run()
+                                } else {
+                                    step_bounded(&mut rs, &mut st)
+                                }
+                            }
+                            Err(e) => Err(e),
+                        }
+                    }
+                    Via::Fresh => {
+                        let mut io2 = ScriptIo::new(&case.io);
+                        m.clone().call_command_policy(this, env, &mut io2, ctx)
+                    }
+                };
+                Some((r, if matches!(via, Via::Fresh) { 0 } else { 2 }))
+            }
+            SeqOp::Seal { which, args, ctx_ok, payload } | SeqOp::Open { which, args, ctx_ok, payload } => {
+                if commands.is_empty() {
+                    continue;
+                }
+                let open = matches!(op, SeqOp::Open { .. });
+                let d = commands[idx(*which, commands.len())];
+                let this = Struct { name: d.name.clone(), fields: build_args(m, &d.fields, args, &mut cur).into_iter().collect() };
+                let bytes: Vec<u8> = (0..*payload).map(|_| cur.u8()).collect();
+                let env = envelope(&mut cur);
+                rs.set_context(ctx_for(*ctx_ok, if open { 2 } else { 1 }, &d.name));
+                let r = if built {
+                    if open { rs.call_open(this, bytes, env) } else { rs.call_seal(this, bytes) }
+                } else {
+                    // compiled bodies: same pushes, stepped with the bounds
+                    let l = Label::new(d.name.clone(), if open { LabelType::CommandOpen } else { LabelType::CommandSeal });
+                    let setup = (|| -> Result<(), MachineError> {
+                        rs.set_pc_by_label(&l)?;
+                        rs.stack.push_value(Value::Struct(this)).map_err(MachineError::new)?;
+                        rs.stack.push_value(Value::Bytes(bytes)).map_err(MachineError::new)?;
+                        if open {
+                            rs.stack.push_value(Value::Struct(env)).map_err(MachineError::new)?;
+                        }
+                        Ok(())
+                    })();
+                    match setup {
+                        Ok(()) => step_bounded(&mut rs, &mut st),
+                        Err(e) => Err(e),
+                    }
+                };
+                Some((r, if open { 3 } else { 2 }))
+            }
+        };
+        if let Some((r, n)) = res {
+            st.calls += 1;
+            st.max_args = st.max_args.max(n);
+            st.max_before = st.max_before.max(before);
+            match &r {
+                Ok(_) => st.entered += 1,
+                Err(e) => {
+                    if !is_validation_error(e) {
+                        st.entered += 1;
+                    }
+                    if matches!(e.err_type, MachineErrorType::StackOverflow) && before + n > 100 {
+                        st.entry_overflow += 1;
+                    }
+                }
+            }
+        }
+        if st.size_bound || st.step_bound {
+            break;
+        }
+        let mut budget = SIZE_BOUND;
+        for v in rs.stack.as_slice() {
+            vsize(v, &mut budget);
+        }
+        if budget == 0 {
+            st.size_bound = true;
+            break;
+        }
+    }
+    st
+}
+
+fn check_seq(case: &SeqCase, info: &mut CaseInfo) -> CheckResult {
+    let (m, built) = match &case.prog {
+        SeqProg::Built { actions, commands } => {
+            info.label("built");
+            (build_seq(actions, commands), true)
+        }
+        SeqProg::Base(b) => {
+            info.label("compiled_unmodified");
+            let all = bases();
+            (all[idx(*b, all.len())].clone(), false)
+        }
+    };
+    let at = Cell::new(0usize);
+    let st = match vcommon::catch(|| run_seq(&m, case, built, &at)) {
+        Ok(st) => st,
+        Err((msg, loc)) => {
+            let k = at.get();
+            let short: String = msg.chars().take(100).collect();
+            return Err(Failure::new(
+                format!("vm panic: {short} @ {}", short_file(&loc)),
+                format!("entry-point sequence: panic `{msg}` at {loc} in op #{k} {:?}", case.ops.get(k)),
+            ));
+        }
+    };
+    if st.entered >= 1 {
+        info.nontrivial();
+    }
+    info.label(match st.entered {
+        0 => "entered_0_calls",
+        1 => "entered_1_call",
+        _ => "entered_2plus_calls_on_one_run_state",
+    });
+    if st.entry_overflow > 0 {
+        info.label("stack_overflow_with_arguments_that_do_not_fit");
+    }
+    if st.max_args > 100 {
+        info.label("more_than_100_arguments");
+    }
+    if st.max_before >= 90 {
+        info.label("call_on_nearly_full_stack");
+    }
+    if st.size_bound {
+        info.label("size_bound");
+    }
+    if st.step_bound {
+        info.label("step_bound");
+    }
+    Ok(())
+}
+
 // ---- child-process probe for operands that make the allocation fail instead of panic -----------------------------------
 
 pub fn child_main(spec: &str) -> ! {
@@ -1336,6 +1872,21 @@ pub fn run(ctx: &Ctx) -> ! {
         mutated_case,
         ctx.pick(100_000, 2_000_000),
         check,
+    );
+    rep.explore(
+        "entry_sequences",
+        "1..7 ops on ONE RunState (no reset unless the sequence says so) whose stack starts with 0..2 arbitrary values plus 0..100 \
+         integers: call_action / call_command_policy / call_seal / call_open, setup_action / setup_command followed by run() or \
+         step(), Machine::call_action / call_command_policy (fresh run state), reset(), push 0..100 values, pop. Machines: hand-built \
+         with 1..2 actions and 1..2 commands of 0..130 parameters / fields (typed Int/Bool/String/Bytes/Id/Optional/Struct/Enum/Result) \
+         whose bodies exit at once (arguments stay on the stack), or Def 0..all parameters and run up to 8 snippet instructions \
+         (jumps forward-only, no calls, so every run ends) before Return / Exit; or (1 in 6) an unmodified compiled policy of the \
+         corpus, stepped with the bounds. Arguments: valid for the declaration, a chosen count 0..130 typed like the declaration, \
+         one wrong type, or arbitrary values; context matching the call (85%) or another one. Oracle: no host panic. Non-trivial = \
+         at least one call got past argument / context validation",
+        seq_case,
+        ctx.pick(40_000, 800_000),
+        check_seq,
     );
     alloc_probe(ctx, &mut rep);
     rep.finish()
